@@ -1,6 +1,7 @@
 package qbftsim
 
 import (
+	"os"
 	"sort"
 
 	"pgregory.net/rapid"
@@ -16,6 +17,7 @@ type GenOpts struct {
 	VerifyOnly  *bool // fix signature verification mode
 	MultiHeight bool  // programs may move on to the next height (replay material from earlier heights)
 	NetFaults   bool  // broadcast faults (published-but-error, lost)
+	Directed    bool  // every script slot is one of the Byzantine strategy scripts (uniformly), never the plain round script
 }
 
 func mask(t *rapid.T, n int, label string) uint32 {
@@ -80,7 +82,11 @@ func Gen(t *rapid.T, o GenOpts) Prog {
 	add("aggregate", w.aggregate)
 	add("start", w.start)
 	// most cases start everybody first; some start a subset and the rest later (or never)
-	p.Ops = append(p.Ops, Op{K: "startall", To: mask(t, n, "startmask")})
+	startMask := uint32(0)
+	if !o.Directed && os.Getenv("VERIF_FORCE_SCRIPT") == "" && rapid.IntRange(0, 3).Draw(t, "start_subset") == 0 {
+		startMask = mask(t, n, "startmask")
+	}
+	p.Ops = append(p.Ops, Op{K: "startall", To: startMask})
 	genOp := func(t *rapid.T) Op {
 		switch rapid.SampledFrom(kinds).Draw(t, "k") {
 		case "flush":
@@ -95,7 +101,7 @@ func Gen(t *rapid.T, o GenOpts) Prog {
 				T:        rapid.SampledFrom([]string{"proposal", "proposal", "prepare", "commit", "rc", "rc"}).Draw(t, "ft"),
 				RoundRel: rapid.SampledFrom([]int{0, 0, 0, 0, 1, 1, 2, -1}).Draw(t, "frel"),
 				Value:    rapid.SampledFrom([]string{"auto", "A", "B", "C", "B", "X"}).Draw(t, "fval"),
-				Just:     rapid.SampledFrom([]string{"auto", "auto", "auto", "none", "short", "replay"}).Draw(t, "fjust"),
+				Just:     rapid.SampledFrom([]string{"auto", "auto", "auto", "none", "short", "replay", "confuse", "lowest", "lowest-first"}).Draw(t, "fjust"),
 				Prepared: rapid.SampledFrom([]string{"none", "none", "pool", "pool", "fake", "replay"}).Draw(t, "fprep"),
 				PRound:   rapid.IntRange(1, 3).Draw(t, "fpround")}
 			if rapid.IntRange(0, 9).Draw(t, "fas_on") == 0 {
@@ -172,13 +178,30 @@ func Gen(t *rapid.T, o GenOpts) Prog {
 		}
 		return ops
 	}
+	var correctIDs []int
+	for id := 1; id <= n; id++ {
+		if !isByz[id] {
+			correctIDs = append(correctIDs, id)
+		}
+	}
+	// distinctCorrect draws k distinct correct operator ids (fewer if there are not enough)
+	distinctCorrect := func(t *rapid.T, k int, label string) []int {
+		if k > len(correctIDs) {
+			k = len(correctIDs)
+		}
+		return rapid.SliceOfNDistinct(rapid.SampledFrom(correctIDs), k, k, rapid.ID[int]).Draw(t, label)
+	}
+	_ = distinctCorrect
 	// lock-split script: one correct operator alone reaches a prepare quorum in round r; after the timeouts its
 	// round-change is withheld, the Byzantine operators supply (unprepared) round-changes instead, the next leader
 	// proposes its own value and, with Byzantine prepares, another correct operator alone prepares that value in
 	// round r+1: two correct operators now hold locks on different values in different rounds.
 	lockSplit := func(t *rapid.T) []Op {
-		a := rapid.IntRange(1, n).Draw(t, "ls_a")
-		b := rapid.IntRange(1, n).Draw(t, "ls_b")
+		ids := distinctCorrect(t, 2, "ls_ids")
+		for len(ids) < 2 {
+			ids = append(ids, ids[0])
+		}
+		a, b := ids[0], ids[1]
 		bitA, bitB := uint32(1)<<uint(a-1), uint32(1)<<uint(b-1)
 		all := uint32(1<<uint(n)) - 1
 		var ops []Op
@@ -224,6 +247,113 @@ func Gen(t *rapid.T, o GenOpts) Prog {
 			ops = append(ops, fg("commit", i))
 		}
 		return append(ops, Op{K: "flush", Types: "C"})
+	}
+	// impersonated-commit script: a Byzantine operator sends the victim a commit that claims the victim's OWN id
+	// right after the victim reached the prepare quorum (before its genuine commit loops back)
+	impersonateCommit := func(t *rapid.T) []Op {
+		v := rapid.IntRange(1, n).Draw(t, "ic_v")
+		bv := uint32(1) << uint(v-1)
+		ops := []Op{{K: "flush", Types: "P"}}
+		for i := 0; i < nb; i++ {
+			ops = append(ops, Op{K: "forge", Forge: &Forge{By: i, T: "prepare", Value: "last", Prepared: "none"}})
+		}
+		ops = append(ops, Op{K: "flush", Types: "p", To: bv})
+		ops = append(ops, Op{K: "forge", Forge: &Forge{By: 0, T: "commit", Value: "last", Prepared: "none", As: v}})
+		ops = append(ops, Op{K: "flush", Types: "C", Src: 1, To: bv})
+		ops = append(ops, Op{K: "flush", Types: "C", To: bv, Limit: rapid.IntRange(1, n).Draw(t, "ic_lim")})
+		for i := 0; i < nb; i++ {
+			ops = append(ops, Op{K: "forge", Forge: &Forge{By: i, T: "commit", Value: "last", Prepared: "none"}})
+		}
+		return append(ops, Op{K: "flush", Types: "C"})
+	}
+	// lock-split-and-decide script: like lockSplit, but two correct operators prepare the second value and one of them
+	// decides it (with a Byzantine commit); the following round's leader then sees round-changes carrying two locks
+	lockSplitDecide := func(t *rapid.T) []Op {
+		ids := distinctCorrect(t, 3, "lsd_ids")
+		for len(ids) < 3 {
+			ids = append(ids, ids[0])
+		}
+		a, b, c := ids[0], ids[1], ids[2]
+		bitA, bitB, bitC := uint32(1)<<uint(a-1), uint32(1)<<uint(b-1), uint32(1)<<uint(c-1)
+		all := uint32(1<<uint(n)) - 1
+		fg := func(tp, v string, by int) Op {
+			return Op{K: "forge", Forge: &Forge{By: by, ByLeader: tp == "proposal", T: tp, RoundRel: 0, Value: v, Just: "auto", Prepared: "none"}}
+		}
+		ops := []Op{fg("proposal", "A", 0), {K: "flush", Types: "P"}} // the forged proposal only counts if the round's leader is Byzantine
+		for i := 0; i < nb; i++ {
+			ops = append(ops, fg("prepare", "last", i))
+		}
+		ops = append(ops, Op{K: "flush", Types: "p", To: bitA}, Op{K: "timeout"})
+		for i := 0; i < nb; i++ {
+			ops = append(ops, fg("rc", "", i))
+		}
+		ops = append(ops, fg("proposal", rapid.SampledFrom([]string{"B", "C"}).Draw(t, "lsd_v"), 0))
+		ops = append(ops, Op{K: "flush", Types: "R", From: all &^ bitA}, Op{K: "flush", Types: "P", To: all &^ bitA})
+		for i := 0; i < nb; i++ {
+			ops = append(ops, fg("prepare", "last", i))
+		}
+		ops = append(ops, Op{K: "flush", Types: "p", From: all &^ bitA, To: bitB | bitC})
+		for i := 0; i < nb; i++ {
+			ops = append(ops, fg("commit", "last", i))
+		}
+		ops = append(ops, Op{K: "flush", Types: "C", To: bitB}, Op{K: "timeout"})
+		for i := 0; i < nb; i++ {
+			ops = append(ops, fg("rc", "", i))
+		}
+		// the order in which the two locks' round-changes reach the next leader matters: one of them goes last
+		last := rapid.SampledFrom([]uint32{bitA, bitC, 0}).Draw(t, "lsd_last")
+		if last != 0 {
+			ops = append(ops, Op{K: "flush", Types: "R", From: all &^ last}, Op{K: "flush", Types: "R", From: last})
+		} else {
+			ops = append(ops, Op{K: "flush", Types: "R"})
+		}
+		// a Byzantine leader of this round re-proposes: legitimately, or the outdated lock dressed up as the highest one
+		lj := rapid.SampledFrom([]string{"auto", "lowest", "lowest-first"}).Draw(t, "lsd_just")
+		ops = append(ops, Op{K: "forge", Forge: &Forge{By: 0, ByLeader: true, T: "proposal", Value: "auto", Just: lj, Prepared: "none"}})
+		ops = append(ops, Op{K: "flush", Types: "P"})
+		for i := 0; i < nb; i++ {
+			ops = append(ops, fg("prepare", "last", i))
+		}
+		ops = append(ops, Op{K: "flush", Types: "p"})
+		for i := 0; i < nb; i++ {
+			ops = append(ops, fg("commit", "last", i))
+		}
+		// the operator that decided earlier keeps its decided message to itself, so that the others run the round on their own
+		return append(ops, Op{K: "flush", Types: "C", From: all &^ bitB, To: all &^ bitB})
+	}
+	// type-confusion script: after a round in which some operators locked / decided, the Byzantine leader of the next
+	// round first shows ONE operator a valid re-proposal (to harvest its prepare), then proposes another value to the
+	// rest, "justified" by round-changes padded with that prepare
+	typeConfusion := func(t *rapid.T) []Op {
+		x := rapid.IntRange(1, n).Draw(t, "tc_x")
+		bx := uint32(1) << uint(x-1)
+		all := uint32(1<<uint(n)) - 1
+		v2 := rapid.SampledFrom([]string{"B", "C"}).Draw(t, "tc_v")
+		ops := []Op{{K: "flush", Types: "P"}}
+		for i := 0; i < nb; i++ {
+			ops = append(ops, Op{K: "forge", Forge: &Forge{By: i, T: "prepare", Value: "last", Prepared: "none"}})
+		}
+		ops = append(ops, Op{K: "flush", Types: "p", To: biasedMask(t, "tc_pto")})
+		for i := 0; i < nb; i++ {
+			ops = append(ops, Op{K: "forge", Forge: &Forge{By: i, T: "commit", Value: "last", Prepared: "none"}})
+		}
+		ops = append(ops, Op{K: "flush", Types: "C", To: uint32(rapid.IntRange(1, (1<<uint(n))-1).Draw(t, "tc_cto"))}, Op{K: "timeout"})
+		for i := 0; i < nb; i++ {
+			ops = append(ops, Op{K: "forge", Forge: &Forge{By: i, T: "rc", Prepared: "none"}})
+		}
+		ops = append(ops, Op{K: "flush", Types: "R"})
+		ops = append(ops, Op{K: "forge", Forge: &Forge{By: 0, ByLeader: true, T: "proposal", Value: "auto", Just: "auto"}})
+		ops = append(ops, Op{K: "flush", Types: "P", Src: 1, To: bx}) // x prepares the legitimate re-proposal; its prepare is now on the network
+		ops = append(ops, Op{K: "forge", Forge: &Forge{By: 0, ByLeader: true, T: "proposal", Value: v2, Just: "confuse"}})
+		ops = append(ops, Op{K: "flush", Types: "P", Src: 1, Val: v2, To: all &^ bx})
+		for i := 0; i < nb; i++ {
+			ops = append(ops, Op{K: "forge", Forge: &Forge{By: i, T: "prepare", Value: v2, Prepared: "none"}})
+		}
+		ops = append(ops, Op{K: "flush", Types: "p", Val: v2})
+		for i := 0; i < nb; i++ {
+			ops = append(ops, Op{K: "forge", Forge: &Forge{By: i, T: "commit", Value: v2, Prepared: "none"}})
+		}
+		return append(ops, Op{K: "flush", Types: "C", Val: v2})
 	}
 	// commit-fault script: X and Y reach the prepare quorum, X's commit is published but its broadcast reports an
 	// error; with a Byzantine commit Y alone decides; everybody else times out and the next round runs without Y.
@@ -292,23 +422,87 @@ func Gen(t *rapid.T, o GenOpts) Prog {
 	if o.MultiHeight {
 		kinds = append(kinds, "nextheight")
 	}
-	if nb > 0 && rapid.IntRange(0, 4).Draw(t, "locksplit") == 0 {
+	force := os.Getenv("VERIF_FORCE_SCRIPT")
+	if o.Directed || force != "" {
+		// directed runs start their first script from a clean instance
+	} else if nb > 0 && rapid.IntRange(0, 4).Draw(t, "locksplit") == 0 {
 		if rapid.Bool().Draw(t, "ls_pre") {
 			p.Ops = append(p.Ops, script(t)...)
 		}
 		p.Ops = append(p.Ops, lockSplit(t)...)
 	}
-	if nb > 0 && rapid.IntRange(0, 2).Draw(t, "equiv_first") == 0 {
+	if !o.Directed && force == "" && nb > 0 && rapid.IntRange(0, 2).Draw(t, "equiv_first") == 0 {
 		p.Ops = append(p.Ops, equiv(t)...)
 	}
 	nscripts := rapid.IntRange(0, 5).Draw(t, "nscripts")
+	if (o.Directed || force != "") && nscripts == 0 {
+		nscripts = 1
+	}
 	for i := 0; i < nscripts; i++ {
 		if o.NetFaults && rapid.IntRange(0, 2).Draw(t, "nf_pre") == 0 {
 			// a broadcast fault right before the round: the operator's next message reports an error
 			p.Ops = append(p.Ops, Op{K: "netfail", I: rapid.IntRange(1, n).Draw(t, "nf_pi"), Limit: rapid.SampledFrom([]int{0, 0, 1}).Draw(t, "nf_pl")})
 		}
-		if nb > 0 && rapid.IntRange(0, 3).Draw(t, "equiv") == 0 {
+		if !o.Directed && nb > 0 && rapid.IntRange(0, 3).Draw(t, "equiv") == 0 {
 			p.Ops = append(p.Ops, equiv(t)...)
+		} else if o.Directed && nb > 0 && force == "" {
+			switch rapid.IntRange(0, 7).Draw(t, "directed") {
+			case 0:
+				p.Ops = append(p.Ops, equiv(t)...)
+			case 1:
+				p.Ops = append(p.Ops, lockSplit(t)...)
+			case 2:
+				p.Ops = append(p.Ops, lockSplitDecide(t)...)
+			case 3:
+				p.Ops = append(p.Ops, invalidLater(t)...)
+			case 4:
+				if o.MultiHeight {
+					p.Ops = append(p.Ops, replay(t)...)
+				} else {
+					p.Ops = append(p.Ops, script(t)...)
+				}
+			case 5:
+				if o.NetFaults {
+					p.Ops = append(p.Ops, commitFault(t)...)
+				} else {
+					p.Ops = append(p.Ops, script(t)...)
+				}
+			case 6:
+				if p.Verify {
+					p.Ops = append(p.Ops, impersonateCommit(t)...)
+				} else {
+					p.Ops = append(p.Ops, typeConfusion(t)...)
+				}
+			default:
+				p.Ops = append(p.Ops, typeConfusion(t)...)
+			}
+		} else if force != "" && nb > 0 {
+			// debugging / directed runs: always use one named script
+			switch force {
+			case "impersonateCommit":
+				p.Ops = append(p.Ops, impersonateCommit(t)...)
+			case "lockSplitDecide":
+				p.Ops = append(p.Ops, lockSplitDecide(t)...)
+			case "typeConfusion":
+				p.Ops = append(p.Ops, typeConfusion(t)...)
+			case "commitFault":
+				p.Ops = append(p.Ops, commitFault(t)...)
+			case "replay":
+				p.Ops = append(p.Ops, replay(t)...)
+			}
+		} else if nb > 0 && rapid.IntRange(0, 5).Draw(t, "special") == 0 {
+			switch rapid.IntRange(0, 2).Draw(t, "which_special") {
+			case 0:
+				if p.Verify {
+					p.Ops = append(p.Ops, impersonateCommit(t)...)
+				} else {
+					p.Ops = append(p.Ops, lockSplitDecide(t)...)
+				}
+			case 1:
+				p.Ops = append(p.Ops, lockSplitDecide(t)...)
+			default:
+				p.Ops = append(p.Ops, typeConfusion(t)...)
+			}
 		} else if nb > 0 && o.NetFaults && rapid.IntRange(0, 4).Draw(t, "commit_fault") == 0 {
 			p.Ops = append(p.Ops, commitFault(t)...)
 		} else if nb > 0 && rapid.IntRange(0, 5).Draw(t, "invalid_later") == 0 {
